@@ -308,8 +308,8 @@ def moduleBody : P :=
   seq (skip 6) (seq (tbl2 (skip 6)) (seq (tbl2 (seq (skip 4) (tbl2 (skip 2)))) (seq (tbl2 (seq (skip 4) (tbl2 (skip 2))))
     (seq (tbl2 (skip 2)) (tbl2 (seq (skip 2) (tbl2 (skip 2))))))))
 
-/-- `known = true`: additionally refuse the regions of the known defects of raw_class_file (NestMembers,
-MethodParameters; long/double pool entries are refused in `pool`) -/
+/-- one attribute; `known` is only passed on (`known = true` makes `pool` refuse long/double entries, the region of the
+open defect of raw_class_file) -/
 def attrInfo (known : Bool) (pool : Utf8s) : Nat → P
   | 0, _ => none
   | f + 1, bs =>
@@ -343,12 +343,12 @@ def attrInfo (known : Bool) (pool : Utf8s) : Nat → P
             some (tbl1 (tbl2 (annotation len)))
           else if name = jstr "AnnotationDefault" then some (elementValue (len + 1))
           else if name = jstr "BootstrapMethods" then some (tbl2 (seq (skip 2) (tbl2 (skip 2))))
-          else if name = jstr "MethodParameters" then (if known then some (fun _ => none) else some (tbl1 (skip 4)))
+          else if name = jstr "MethodParameters" then some (tbl1 (skip 4))
           else if name = jstr "Module" then some moduleBody
           else if name = jstr "ModulePackages" then some (tbl2 (skip 2))
           else if name = jstr "ModuleMainClass" then some (skip 2)
           else if name = jstr "NestHost" then some (skip 2)
-          else if name = jstr "NestMembers" then (if known then some (fun _ => none) else some (tbl2 (skip 2)))
+          else if name = jstr "NestMembers" then some (tbl2 (skip 2))
           else if name = jstr "Record" then some (tbl2 (seq (skip 4) attributes))
           else if name = jstr "PermittedSubclasses" then some (tbl2 (skip 2))
           else none
